@@ -79,9 +79,14 @@ def run_one(entry, tier="quick"):
         if skip:
             return dict(id=entry["id"], status="skipped", detail=skip)
         evdir = tmp / "evidence"
-        env = dict(os.environ, YADSA_REPO=str(tmp), YADSA_EVIDENCE_DIR=str(evdir), YADSA_SELFTEST="1")
-        p = subprocess.run([sys.executable, "-m", "yadsa", "check", entry["prop"], "--tier", tier], cwd=str(VERIF), env=env,
-                           capture_output=True, text=True, timeout=900)
+        # many variants run side by side: each check gets a small pool of its own and a per-job bound well inside the outer one
+        env = dict(os.environ, YADSA_REPO=str(tmp), YADSA_EVIDENCE_DIR=str(evdir), YADSA_SELFTEST="1", YADSA_POOL=os.environ.get("YADSA_POOL", "3"),
+                   YADSA_JOB_TIMEOUT=os.environ.get("YADSA_JOB_TIMEOUT", "1200"))
+        try:
+            p = subprocess.run([sys.executable, "-m", "yadsa", "check", entry["prop"], "--tier", tier], cwd=str(VERIF), env=env,
+                               capture_output=True, text=True, timeout=3600)
+        except subprocess.TimeoutExpired:
+            return dict(id=entry["id"], status="error", rc=None, detail="the check did not finish within 3600 s on this variant")
         out = p.stdout + p.stderr
         viol_lines = [l for l in out.splitlines() if ("VIOLAT" in l or l.startswith("  C")) and "discharged" not in l]
         if entry["kind"] == "M":
